@@ -79,11 +79,21 @@ impl SimpleSerializer for DecimalBuilder {
     }
 
     fn serialize_f32(&mut self, v: f32) -> Result<()> {
-        try_(|| self.array.push_scalar_value((v * self.f32_factor) as i128)).ctx(self)
+        try_(|| {
+            let scaled = (v * self.f32_factor) as f64;
+            let val = decimal::scaled_float_to_decimal128(scaled, self.precision)?;
+            self.array.push_scalar_value(val)
+        })
+        .ctx(self)
     }
 
     fn serialize_f64(&mut self, v: f64) -> Result<()> {
-        try_(|| self.array.push_scalar_value((v * self.f64_factor) as i128)).ctx(self)
+        try_(|| {
+            let scaled = v * self.f64_factor;
+            let val = decimal::scaled_float_to_decimal128(scaled, self.precision)?;
+            self.array.push_scalar_value(val)
+        })
+        .ctx(self)
     }
 
     fn serialize_str(&mut self, v: &str) -> Result<()> {
